@@ -137,8 +137,6 @@ Definition c03_model_valid (t : table) : table :=
 (** the two premises of Props/C03.v's [C03_conformance_partial] evaluated on the model's own
     tracker and profiler: [strict_domb] (the property's strict domain) and [profile_exactb] (the
     profile characterisation P1, monitored on every generated case) *)
-Definition okN53b (d : N) : bool := (0 <? d)%N && (d <? 2 ^ 53)%N.
-
 Definition c03_premises_entry (t : table) : table :=
   match c03_premises okN53b (rcfg_of t) (graph_of t) with
   | Some (a, b) => [[Str "ok"; bstr a; bstr b]]
